@@ -6,9 +6,9 @@ From NM Require Import Base Index IndexProofs NN NNProofs.
 Local Open Scope Z_scope.
 
 (* ---- 1. output shape of the whole conv pipeline = PyTorch's formula.
-   Hypothesis = the boolean domain the runner evaluates on every case: ranks 4/4 (resp. 3/3), positive extents,
-   groups | C and groups | O, stride >= 1, padding >= 0, dilation >= 1 (scalar, per axis, or absent), positive output,
-   batch 1, per-axis dilation uniform.  Any channels, kernel, stride, padding, dilation, groups, bias, data. *)
+   Hypothesis = the boolean validity the runner evaluates on every case: ranks 4/4 (resp. 3/3), positive extents,
+   groups | C and groups | O, stride >= 1, padding >= 0, dilation >= 1 (scalar, per axis, or absent), positive output.
+   Any batch, channels, groups, kernel, stride, padding, (per-axis) dilation, bias, data. *)
 Theorem C17_conv2d_out_shape : forall ishape idata wshape wdata bias st pd dl g,
   conv_dom 2 ishape wshape bias st pd dl g = true ->
   exists elems, convnd 2 ishape idata wshape wdata bias st pd dl g
@@ -22,17 +22,6 @@ Theorem C17_conv1d_out_shape : forall ishape idata wshape wdata bias st pd dl g,
                 = Some (conv_spec_shape 1 ishape wshape st pd dl, elems).
 Proof. exact conv1d_out_shape. Qed.
 Print Assumptions C17_conv1d_out_shape.
-
-(* batch 2 is inside the property's quantifier and fails: conv_reshape_input never copies the batch extent *)
-Theorem C17_conv_batch_refuted : exists ishape idata wshape wdata,
-  valid_conv_args 2 ishape wshape None ANone ANone ANone 1 = true
-  /\ convnd 2 ishape idata wshape wdata None ANone ANone ANone 1 = None
-  /\ conv_spec 2 ishape idata wshape wdata None ANone ANone ANone 1 <> None.
-Proof.
-  exists [2; 1; 3; 3], [1; 2; 3; 4; 5; 6; 7; 8; 9; 1; 2; 3; 4; 5; 6; 7; 8; 9], [1; 1; 2; 2], [1; 2; 3; 4].
-  vm_compute. repeat split; discriminate.
-Qed.
-Print Assumptions C17_conv_batch_refuted.
 
 (* ---- 2. the two non-trivial index maps, for any number of leading axes.
    sliding_window over the two trailing axes with window (kw, kh) on axes (-1, -2): the shape is
@@ -74,105 +63,63 @@ Proof. exact pad_idx_spec. Qed.
 Print Assumptions C17_pad_elem.
 
 (* ---- 3. groups.  The three reshapes of the pipeline, as index maps: output channel o of (N,O,h,w) is entry
-   (o div g, o mod g) of the sum; entry (oo, gi) of the reshaped weight is weight row oo*g+gi (so channel o uses ITS weight
-   row o); group gi, channel c of the reshaped input is input channel gi*Cg + c.  Hence channel o is computed from input
-   group  model_group g o = o mod g. *)
+   (G, o mod (O/g)) of the sum (N,g,O/g,h,w) with G = model_group; that entry of the reshaped weight (g,O/g,..) is weight
+   row o; group G, channel c of the reshaped input (N,g,1,Cg,H,W) is input channel G*Cg + c.  And G is PyTorch's group
+   o div (O/g), for every batch, every divisor g and every channel. *)
 Theorem C17_conv_reshape_maps : forall N O Cg H W kh kw g h w n o c y x a b,
   1 <= N -> 1 <= O -> 1 <= g -> O mod g = 0 -> 1 <= Cg -> 1 <= H -> 1 <= W -> 1 <= kh -> 1 <= kw -> 1 <= h -> 1 <= w ->
   0 <= n < N -> 0 <= o < O -> 0 <= c < Cg -> 0 <= y < h -> 0 <= x < w -> 0 <= a < kh -> 0 <= b < kw -> y < H -> x < W ->
-  compute_indices (compute_offset [n; o; y; x] (compute_strides [N; O; h; w])) [N; O / g; g; h; w]
-    = [n; o / g; model_group g o; y; x]
-  /\ compute_indices (compute_offset [o / g; model_group g o; c; a; b] (compute_strides [O / g; g; Cg; kh; kw])) [O; Cg; kh; kw]
+  model_group O g o = spec_group O g o
+  /\ compute_indices (compute_offset [n; o; y; x] (compute_strides [N; O; h; w])) [N; g; O / g; h; w]
+    = [n; model_group O g o; o mod (O / g); y; x]
+  /\ compute_indices (compute_offset [model_group O g o; o mod (O / g); c; a; b] (compute_strides [g; O / g; Cg; kh; kw])) [O; Cg; kh; kw]
     = [o; c; a; b]
-  /\ compute_indices (compute_offset [0; 0; model_group g o; c; y; x] (compute_strides [1; 1; g; Cg; H; W])) [1; g * Cg; H; W]
-    = [0; model_group g o * Cg + c; y; x].
+  /\ compute_indices (compute_offset [n; model_group O g o; 0; c; y; x] (compute_strides [N; g; 1; Cg; H; W])) [N; g * Cg; H; W]
+    = [n; spec_group O g o * Cg + c; y; x].
 Proof.
   intros N O Cg H W kh kw g h w n o c y x a b HN HO Hg HOg HCg HH HW Hkh Hkw Hh Hw Bn Bo Bc By Bx Ba Bb ByH BxW.
-  unfold model_group.
-  pose proof (Z.mod_pos_bound o g ltac:(lia)) as Bm.
+  destruct (model_group_spec O g o Hg HO HOg Bo) as [EG BG]. rewrite EG in *. unfold spec_group in *.
   destruct (div_pos_exact O g HO Hg HOg) as [Q1 Q2].
-  assert (Bq : 0 <= o / g < O / g).
-  { split; [apply Z.div_pos; lia|]. apply Z.div_lt_upper_bound; [lia|]. nia. }
+  pose proof (Z.mod_pos_bound o (O / g) ltac:(lia)) as Bm.
+  split; [reflexivity|].
   split; [exact (reduce_reshape_index N O g h w n o y x HN HO Hg HOg Hh Hw Bn Bo By Bx)|].
   split.
-  - rewrite (weight_reshape_index O Cg kh kw g (o / g) (o mod g) c a b) by assumption.
-    f_equal. pose proof (Z.div_mod o g ltac:(lia)). lia.
+  - rewrite (weight_reshape_index O Cg kh kw g (o / (O / g)) (o mod (O / g)) c a b) by assumption.
+    f_equal. pose proof (Z.div_mod o (O / g) ltac:(lia)). lia.
   - apply input_reshape_index; try assumption; lia.
 Qed.
 Print Assumptions C17_conv_reshape_maps.
 
-(* PyTorch pairs channel o with group o div (O/g).  The two agree on every channel iff g = 1 or O = g *)
-Theorem C17_conv_group_on_domain : forall O g, 1 <= g -> 1 <= O -> O mod g = 0 ->
-  ((forall o, 0 <= o < O -> model_group g o = spec_group O g o) <-> (g = 1 \/ O = g)).
-Proof. exact group_agree_iff. Qed.
-Print Assumptions C17_conv_group_on_domain.
-
-(* ... and the full statement fails: groups = 2 with two output channels per group, on the whole pipeline *)
-Theorem C17_conv_group_refuted :
-  (exists g O o, 1 <= g /\ O mod g = 0 /\ 0 <= o < O /\ model_group g o <> spec_group O g o)
-  /\ exists ishape idata wshape wdata,
-       valid_conv_args 2 ishape wshape None (AScalar 1) (AScalar 0) (AScalar 1) 2 = true
-       /\ convnd 2 ishape idata wshape wdata None (AScalar 1) (AScalar 0) (AScalar 1) 2
-          <> conv_spec 2 ishape idata wshape wdata None (AScalar 1) (AScalar 0) (AScalar 1) 2.
-Proof.
-  split.
-  - exists 2, 4, 1. vm_compute. repeat split; congruence.
-  - exists [1; 2; 2; 2], [1; 2; 3; 4; 5; 6; 7; 8], [4; 1; 1; 1], [1; 2; 3; 4]. vm_compute. split; [reflexivity|discriminate].
-Qed.
-Print Assumptions C17_conv_group_refuted.
-
-(* per-axis dilation (dH, dW) = (1, 2): conv_expand_spacing hands dilation[0] to the last axis *)
-Theorem C17_conv_dilation_pair_refuted : exists ishape idata wshape wdata,
-  valid_conv_args 2 ishape wshape None (AList [1; 1]) (AList [0; 0]) (AList [1; 2]) 1 = true
-  /\ convnd 2 ishape idata wshape wdata None (AList [1; 1]) (AList [0; 0]) (AList [1; 2]) 1
-     <> conv_spec 2 ishape idata wshape wdata None (AList [1; 1]) (AList [0; 0]) (AList [1; 2]) 1.
-Proof.
-  exists [1; 1; 3; 4], [1; 2; 3; 4; 5; 6; 7; 8; 9; 10; 11; 12], [1; 1; 2; 2], [1; 2; 3; 4].
-  vm_compute. split; [reflexivity|discriminate].
-Qed.
-Print Assumptions C17_conv_dilation_pair_refuted.
-
-(* ---- 4. pooling.  Any rank >= 2, any positive extents, kernel <= input, stride >= 1.  In floor mode always, in ceil
-   mode when no window starts at or beyond the extent, shape_pool2d = PyTorch's formula *)
-Theorem C17_pool_out_shape_on_domain : forall shape ks ss ceil, pool_dom shape ks ss ceil = true ->
+(* ---- 4. pooling.  Any rank >= 2, any positive extents, kernel <= input, stride >= 1, floor and ceil mode:
+   shape_pool2d = PyTorch's formula (in ceil mode including "the last window must start inside the input") *)
+Theorem C17_pool_out_shape : forall shape ks ss ceil, valid_pool_args shape ks ss = true ->
   shape_pool2d shape ks ss ceil = pool_spec_shape shape ks ss ceil.
 Proof. exact pool_out_shape_dom. Qed.
-Print Assumptions C17_pool_out_shape_on_domain.
+Print Assumptions C17_pool_out_shape.
 
-(* the floor-mode extent is the number of complete windows; the ceil-mode extent is the least number of windows
-   that covers the input *)
+(* the floor-mode extent is the number of complete windows; in ceil mode every window starts inside the input, the
+   windows before the last do not reach the end, and the last reaches the end or the next one would start outside *)
 Theorem C17_pool_extent_meaning : forall n k s, 1 <= s -> 1 <= k <= n ->
   (let o := pool_extent false n k s in 1 <= o /\ (o - 1) * s + k <= n < o * s + k)
-  /\ (let o := pool_extent true n k s in 1 <= o /\ (o - 2) * s + k < n <= (o - 1) * s + k).
+  /\ (let o := pool_extent true n k s in
+      1 <= o /\ (o - 1) * s < n /\ (o - 2) * s + k < n /\ (n <= (o - 1) * s + k \/ n <= o * s)).
 Proof. intros n k s Hs Hk. split; [exact (pool_floor_count n k s Hs Hk)|exact (pool_ceil_cover n k s Hs Hk)]. Qed.
 Print Assumptions C17_pool_extent_meaning.
 
-(* ceil mode outside that domain: 3x3, kernel 1, stride 3 -> two windows per axis where PyTorch has one;
-   the second window is empty and cannot be reduced (model: None = the observed trap) *)
-Theorem C17_pool_out_shape_ceil_refuted : exists shape data ks ss,
-  valid_pool_args shape ks ss = true
-  /\ shape_pool2d shape ks ss true <> pool_spec_shape shape ks ss true
-  /\ max_pool2d shape data ks ss true = None /\ avg_pool2d shape data ks ss true = None
-  /\ pool_spec zmax_list shape data ks ss true <> None.
-Proof.
-  exists [1; 1; 3; 3], [1; 2; 3; 4; 5; 6; 7; 8; 9], [1; 1], [3; 3]. vm_compute.
-  repeat split; try reflexivity; discriminate.
-Qed.
-Print Assumptions C17_pool_out_shape_ceil_refuted.
-
 (* ---------- non-vacuity ---------- *)
 Example C17_nonvacuous_conv2d :
-  conv_dom 2 [1; 4; 5; 6] [2; 2; 3; 2] (Some [1; 2]) (AList [2; 1]) (AScalar 1) (AScalar 2) 2 = true
-  /\ conv_spec_shape 2 [1; 4; 5; 6] [2; 2; 3; 2] (AList [2; 1]) (AScalar 1) (AScalar 2) = [1; 2; 2; 6].
+  conv_dom 2 [2; 4; 5; 6] [4; 2; 3; 2] (Some [1; 2; 3; 4]) (AList [2; 1]) (AScalar 1) (AList [2; 1]) 2 = true
+  /\ conv_spec_shape 2 [2; 4; 5; 6] [4; 2; 3; 2] (AList [2; 1]) (AScalar 1) (AList [2; 1]) = [2; 4; 2; 7].
 Proof. split; reflexivity. Qed.
 Example C17_nonvacuous_conv1d :
-  conv_dom 1 [1; 3; 7] [3; 1; 3] None (AScalar 3) (AList [2]) ANone 3 = true
-  /\ conv_spec_shape 1 [1; 3; 7] [3; 1; 3] (AScalar 3) (AList [2]) ANone = [1; 3; 3].
+  conv_dom 1 [2; 3; 7] [6; 1; 3] None (AScalar 3) (AList [2]) ANone 3 = true
+  /\ conv_spec_shape 1 [2; 3; 7] [6; 1; 3] (AScalar 3) (AList [2]) ANone = [2; 6; 3].
 Proof. split; reflexivity. Qed.
 Example C17_nonvacuous_pool :
   pool_dom [2; 3; 7; 5] [3; 2] [2; 3] true = true /\ shape_pool2d [2; 3; 7; 5] [3; 2] [2; 3] true = [2; 3; 3; 2]
   /\ pool_dom [2; 3; 7; 5] [3; 2] [2; 3] false = true /\ shape_pool2d [2; 3; 7; 5] [3; 2] [2; 3] false = [2; 3; 3; 2]
-  /\ pool_dom [4; 4] [3; 3] [2; 2] true = true /\ shape_pool2d [4; 4] [3; 3] [2; 2] true = [2; 2].
+  /\ pool_dom [4; 4] [3; 3] [2; 2] true = true /\ shape_pool2d [4; 4] [3; 3] [2; 2] true = [2; 2]
+  /\ pool_dom [1; 1; 3; 3] [1; 1] [3; 3] true = true /\ shape_pool2d [1; 1; 3; 3] [1; 1] [3; 3] true = [1; 1; 1; 1].
 Proof. repeat split; reflexivity. Qed.
 Example C17_nonvacuous_maps :
   sliding_window_idx [0; 1; 2; 3; 1; 2] 4 [-1; -2] = [0; 1; 4; 4]
@@ -190,7 +137,7 @@ Proof. split; vm_compute; reflexivity. Qed.
 (* ---- 5. pooling windows.  slice_pool2d of output (l, y, x) is (i, i+1) on every leading axis and
    (sh*y, sh*y+kh), (sw*x, sw*x+kw) on the two spatial axes; sliced with Python clamping a leading axis yields exactly
    its index and a spatial axis the range s*y .. min(s*y+k, n)-1 (the nested-loop window); every floor-mode window is
-   complete (k elements per axis); every ceil-mode window on the domain has between 1 and k elements per axis. *)
+   complete (k elements per axis); every ceil-mode window has between 1 and k elements per axis (never empty). *)
 Theorem C17_pool_window : forall (lead l : list Z) H W kh kw sh sw y x, length l = length lead ->
   slice_pool2d (l ++ [y; x]) (lead ++ [H; W]) [kh; kw] [sh; sw]
   = map (fun i => (znth (l ++ [y; x]) i, znth (l ++ [y; x]) i + 1)) (zrange (zlen lead))
@@ -200,7 +147,7 @@ Theorem C17_pool_window : forall (lead l : list Z) H W kh kw sh sw y x, length l
         slice_range n (s * v, s * v + k) = map (Z.add (s * v)) (zrange (Z.min (s * v + k) n - s * v)))
   /\ (forall n k s v, 1 <= s -> 1 <= k <= n -> 0 <= v < pool_extent false n k s ->
         s * v + k <= n /\ Z.min (s * v + k) n - s * v = k)
-  /\ (forall n k s v, 1 <= s -> 1 <= k <= n -> (pool_extent true n k s - 1) * s < n -> 0 <= v < pool_extent true n k s ->
+  /\ (forall n k s v, 1 <= s -> 1 <= k <= n -> 0 <= v < pool_extent true n k s ->
         s * v < n /\ 1 <= Z.min (s * v + k) n - s * v <= k).
 Proof.
   intros lead l H W kh kw sh sw y x E.
@@ -213,3 +160,18 @@ Example C17_nonvacuous_window :
   pool_window [1; 1; 2] [2; 5; 7] [3; 2] [2; 3] = [[1; 2; 6]; [1; 3; 6]; [1; 4; 6]]
   /\ pool_spec_window [1; 1; 2] [2; 5; 7] [3; 2] [2; 3] = [[1; 2; 6]; [1; 3; 6]; [1; 4; 6]].
 Proof. split; reflexivity. Qed.
+
+(* the inputs on which the code before the repairs failed (batch 2; groups 2 with two channels per group; dilation (1,2);
+   3x3 pooling with kernel 1, stride 3 in ceil mode) now give the reference result *)
+Example C17_former_witnesses :
+  convnd 2 [2; 1; 3; 3] [1; 2; 3; 4; 5; 6; 7; 8; 9; 1; 2; 3; 4; 5; 6; 7; 8; 9] [1; 1; 2; 2] [1; 2; 3; 4] None ANone ANone ANone 1
+    = conv_spec 2 [2; 1; 3; 3] [1; 2; 3; 4; 5; 6; 7; 8; 9; 1; 2; 3; 4; 5; 6; 7; 8; 9] [1; 1; 2; 2] [1; 2; 3; 4] None ANone ANone ANone 1
+  /\ convnd 2 [1; 2; 2; 2] [1; 2; 3; 4; 5; 6; 7; 8] [4; 1; 1; 1] [1; 2; 3; 4] None (AScalar 1) (AScalar 0) (AScalar 1) 2
+    = Some ([1; 4; 2; 2], [1; 2; 3; 4; 2; 4; 6; 8; 15; 18; 21; 24; 20; 24; 28; 32])
+  /\ conv_spec 2 [1; 2; 2; 2] [1; 2; 3; 4; 5; 6; 7; 8] [4; 1; 1; 1] [1; 2; 3; 4] None (AScalar 1) (AScalar 0) (AScalar 1) 2
+    = Some ([1; 4; 2; 2], [1; 2; 3; 4; 2; 4; 6; 8; 15; 18; 21; 24; 20; 24; 28; 32])
+  /\ convnd 2 [1; 1; 3; 4] [1; 2; 3; 4; 5; 6; 7; 8; 9; 10; 11; 12] [1; 1; 2; 2] [1; 2; 3; 4] None (AList [1; 1]) (AList [0; 0]) (AList [1; 2]) 1
+    = Some ([1; 1; 2; 2], [50; 60; 90; 100])
+  /\ max_pool2d [1; 1; 3; 3] [1; 2; 3; 4; 5; 6; 7; 8; 9] [1; 1] [3; 3] true = Some ([1; 1; 1; 1], [1])
+  /\ avg_pool2d [1; 1; 3; 3] [1; 2; 3; 4; 5; 6; 7; 8; 9] [1; 1] [3; 3] true = Some ([1; 1; 1; 1], [(1, 1)]).
+Proof. vm_compute. repeat split; reflexivity. Qed.
